@@ -1361,13 +1361,22 @@ rrul_fill_wly(echs_instant_t *restrict tgt, size_t nti, rrulsp_t rr)
 	}
 
 	if (wd_mask) {
-		unsigned int w = echs_scale_wday(srcsca, y, m, d);
+		/* weeks go from monday to sunday no matter what day DTSTART is,
+		 * so rewind to the monday of DTSTART's week, days before
+		 * DTSTART are filtered out below */
+		const unsigned int back = echs_scale_wday(srcsca, y, m, d) - MON;
 
-		/* duplicate the wd_mask so we can just right shift it
-		 * and wrap around the end of the week */
-		wd_mask |= wd_mask << 7U;
-		/* zap to current day so increments are relative to DTSTART */
-		wd_mask >>= w;
+		if (d > back) {
+			d -= back;
+		} else {
+			if (!--m) {
+				m = 12U;
+				y--;
+			}
+			d += echs_scale_ndim(srcsca, y, m) - back;
+		}
+		/* zap to monday so increments are relative to the week start */
+		wd_mask >>= MON;
 		/* clamp wd_mask to exactly 7 days */
 		wd_mask &= 0b1111111U;
 		/* calculate wd increments
